@@ -126,6 +126,8 @@ type ShardResult struct {
 	FuncHits   map[string]uint64 `json:"func_hits"`
 	Steps      uint64            `json:"steps"`
 	WallS      float64           `json:"wall_s"`
+	SlowIdx    int               `json:"slowest_case"`
+	SlowS      float64           `json:"slowest_case_s"`
 }
 
 type SiteTable struct {
@@ -332,7 +334,11 @@ func shard(o *opts) {
 		curStart.Store(time.Now().Unix())
 		simrt.ResetPools()
 		fuelOuts, guardMaxSteps = 0, 0
+		caseStart := time.Now()
 		out := ck.RunCase(c, i)
+		if d := time.Since(caseStart).Seconds(); d > res.SlowS {
+			res.SlowS, res.SlowIdx = d, i
+		}
 		if fuelOuts > 0 && guardMaxSteps >= stepFuel/8 && len(out.Violations) > 0 {
 			c.count("heavy_case_no_verdict", 1)
 			out.Violations = nil
@@ -445,6 +451,9 @@ func coord(o *opts) int {
 		merged.Evals += r.Evals
 		merged.Cases += r.Cases
 		merged.Discarded += r.Discarded
+		if r.SlowS > merged.SlowS {
+			merged.SlowS, merged.SlowIdx = r.SlowS, r.SlowIdx
+		}
 		merged.Steps += r.Steps
 		for _, h := range r.Hashes {
 			if !seen[h] {
@@ -632,6 +641,9 @@ func coord(o *opts) int {
 	}
 	wall := time.Since(start).Seconds()
 	writeEvidence(o, ck, sites, merged, reported, reportedList, redo, wall, total)
+	if merged.SlowS > 30 {
+		fmt.Printf("note: the slowest case (%d) took %.0f s\n", merged.SlowIdx, merged.SlowS)
+	}
 	fmt.Printf("%s %s seed=%d: %d cases, %d executions, %d distinct non-trivial, %d violation signature(s), %.1fs\n",
 		o.prop, o.tier, o.seed, merged.Cases, merged.Evals, len(merged.Hashes), reported, wall)
 	return exit
